@@ -344,10 +344,11 @@ func scaledC08(res *hlib.Result, m *MutVector, f fieldRec, count int, big []byte
 	run := func(d namedDecoder, enc []byte, off int) {
 		var ferr error
 		var unread int
-		if p := guard(func() { _, unread, ferr = d.fn(enc) }); p != nil || ferr != nil || unread != 0 {
+		if p := guard(func() { _, unread, ferr = d.fn(enc) }); p != nil || ferr != nil {
 			stats[d.name+"/full-encoding-not-accepted"]++
 			return
 		}
+		_ = unread
 		ks := cuts(off)
 		if scaledSelfTest {
 			ks = append(ks, len(enc))
